@@ -29,6 +29,7 @@ type Op struct {
 	Prefix []byte `json:"prefix,omitempty"`
 	Start  []byte `json:"start,omitempty"`
 	Flag   bool   `json:"flag,omitempty"`
+	Ws     []Op   `json:"ws,omitempty"` // direct writes issued while an iterator is open (DbIterDuring)
 }
 
 type Out struct {
@@ -88,6 +89,18 @@ func (o Op) Coq() string {
 		return fmt.Sprintf("BGetPending %s %s", coqB(o.B), hlib.CoqBytes(o.Key))
 	case "BSize", "BWrite", "BReset", "BReplayDb", "BReplayB":
 		return fmt.Sprintf("%s %s", o.K, coqB(o.B))
+	case "DbCompact":
+		return "DbCompact"
+	case "DbIterDuring":
+		ws := make([]string, len(o.Ws))
+		for i, w := range o.Ws {
+			if w.K == "DbPut" {
+				ws[i] = fmt.Sprintf("WPut %s %s", hlib.CoqBytes(w.Key), hlib.CoqBytes(w.Val))
+			} else {
+				ws[i] = "WDel " + hlib.CoqBytes(w.Key)
+			}
+		}
+		return fmt.Sprintf("DbIterDuring %s %s %s", hlib.CoqBytes(o.Prefix), hlib.CoqBytes(o.Start), hlib.CoqList(ws))
 	}
 	panic("op " + o.K)
 }
@@ -186,6 +199,31 @@ func runReal(db ethdb.Database, h []Op) []Out {
 			it := db.NewIterator(o.Prefix, o.Start)
 			r = Out{Kind: "list"}
 			for it.Next() {
+				r.Keys = append(r.Keys, cp(it.Key()))
+				r.Vals = append(r.Vals, cp(it.Value()))
+			}
+			must(it.Error())
+			it.Release()
+		case "DbCompact":
+			must(db.Compact(nil, nil))
+			r = Out{Kind: "none"}
+		case "DbIterDuring":
+			it := db.NewIterator(o.Prefix, o.Start)
+			r = Out{Kind: "list"}
+			// read the first entry, then write, then drain: writes ahead of and behind the cursor
+			first := it.Next()
+			if first {
+				r.Keys = append(r.Keys, cp(it.Key()))
+				r.Vals = append(r.Vals, cp(it.Value()))
+			}
+			for _, w := range o.Ws {
+				if w.K == "DbPut" {
+					must(db.Put(w.Key, w.Val))
+				} else {
+					must(db.Delete(w.Key))
+				}
+			}
+			for first && it.Next() {
 				r.Keys = append(r.Keys, cp(it.Key()))
 				r.Vals = append(r.Vals, cp(it.Value()))
 			}
@@ -297,6 +335,28 @@ func runRef(h []Op) []Out {
 				r.Keys = append(r.Keys, []byte(k))
 				r.Vals = append(r.Vals, cp(s.db[k]))
 			}
+		case "DbCompact":
+		case "DbIterDuring":
+			r = Out{Kind: "list"}
+			var ks []string
+			lo := string(o.Prefix) + string(o.Start)
+			for k := range s.db {
+				if strings.HasPrefix(k, string(o.Prefix)) && k >= lo {
+					ks = append(ks, k)
+				}
+			}
+			sort.Strings(ks)
+			for _, k := range ks {
+				r.Keys = append(r.Keys, []byte(k))
+				r.Vals = append(r.Vals, cp(s.db[k]))
+			}
+			for _, w := range o.Ws {
+				if w.K == "DbPut" {
+					s.db[string(w.Key)] = cp(w.Val)
+				} else {
+					delete(s.db, string(w.Key))
+				}
+			}
 		case "BPut":
 			s.b[o.B].put(o.Key, o.Val)
 		case "BDel":
@@ -396,7 +456,7 @@ func genHistory(r *hlib.Rng, n int) []Op {
 	var spent [2]bool
 	for i := 0; i < n; i++ {
 		b := r.Intn(2)
-		k := r.Pick(8, 4, 8, 3, 6, 14, 8, 4, 12, 0, 4, 1, 2, 2) // ValueSize (9) is a sizing heuristic, not part of the contract: never generated
+		k := r.Pick(8, 4, 8, 3, 6, 14, 8, 4, 12, 0, 4, 1, 2, 2, 3, 4) // ValueSize (9) is a sizing heuristic, not part of the contract: never generated
 		if spent[b] && (k == 5 || k == 6 || k == 10 || k == 12 || k == 13) {
 			k = 11 // Reset first
 		}
@@ -429,7 +489,14 @@ func genHistory(r *hlib.Rng, n int) []Op {
 			}
 			h = append(h, Op{K: "DbIter", Prefix: cp(p), Start: cp(s)})
 		case 5:
-			h = append(h, Op{K: "BPut", B: b, Key: genKey(r), Val: genVal(r)})
+			// a tracked batch reports "no pending entry" as nil data, so an EMPTY pending value cannot be told from
+			// an absent one through GetPending (leveldb even returns nil for an empty value that went through
+			// Replay): empty values are outside the pending contract and are only generated for direct puts
+			v := genVal(r)
+			if len(v) == 0 {
+				v = []byte{0}
+			}
+			h = append(h, Op{K: "BPut", B: b, Key: genKey(r), Val: v})
 		case 6:
 			h = append(h, Op{K: "BDel", B: b, Key: genKey(r)})
 		case 7:
@@ -446,6 +513,22 @@ func genHistory(r *hlib.Rng, n int) []Op {
 			h = append(h, Op{K: "BReplayDb", B: b})
 		case 13:
 			h = append(h, Op{K: "BReplayB", B: b})
+		case 14:
+			h = append(h, Op{K: "DbCompact"})
+		case 15:
+			p := alphabet[r.Intn(len(alphabet))]
+			if r.Chance(60) {
+				p = []byte{}
+			}
+			var ws []Op
+			for j := 0; j < 1+r.Intn(5); j++ {
+				if r.Chance(60) {
+					ws = append(ws, Op{K: "DbPut", Key: genKey(r), Val: genVal(r)})
+				} else {
+					ws = append(ws, Op{K: "DbDel", Key: genKey(r)})
+				}
+			}
+			h = append(h, Op{K: "DbIterDuring", Prefix: cp(p), Start: []byte{}, Ws: ws})
 		}
 	}
 	return h
@@ -469,6 +552,33 @@ func main() {
 	defer os.RemoveAll(tmp)
 
 	var histories [][]Op
+	corpus := func() [][]Op {
+		k1, k2 := []byte("LastHeader"), []byte{1, 1}
+		var h1 []Op
+		for _, k := range [][]byte{k1, k2} {
+			h1 = append(h1, Op{K: "DbPut", Key: k, Val: []byte("v1")}, Op{K: "DbPut", Key: k, Val: []byte("v2")})
+		}
+		h1 = append(h1, Op{K: "DbCompact"}, Op{K: "DbPut", Key: k1, Val: []byte("v3")},
+			Op{K: "BDel", B: 0, Key: k1}, Op{K: "BDel", B: 0, Key: k2}, Op{K: "BWrite", B: 0},
+			Op{K: "DbGet", Key: k1}, Op{K: "DbHas", Key: k2}, Op{K: "DbCompact"},
+			Op{K: "DbGet", Key: k1}, Op{K: "DbHas", Key: k2}, Op{K: "DbIter", Prefix: []byte{}, Start: []byte{}},
+			Op{K: "DbDel", Key: k1}, Op{K: "DbCompact"}, Op{K: "DbGet", Key: k1})
+		var h2 []Op
+		for i := 0; i < 8; i++ {
+			h2 = append(h2, Op{K: "DbPut", Key: []byte{'q', byte('0' + i)}, Val: []byte{byte(i)}})
+		}
+		h2 = append(h2, Op{K: "DbIterDuring", Prefix: []byte{'q'}, Start: []byte{}, Ws: []Op{
+			{K: "DbPut", Key: []byte("q3"), Val: []byte("new3")}, {K: "DbDel", Key: []byte("q4")},
+			{K: "DbPut", Key: []byte("q5"), Val: []byte("new5")}, {K: "DbDel", Key: []byte("q0")}, {K: "DbPut", Key: []byte("q9"), Val: []byte("late")}}},
+			Op{K: "DbIter", Prefix: []byte{'q'}, Start: []byte{}})
+		// prefix ending in 0xff with a live key equal to the incremented prefix
+		h3 := []Op{{K: "DbPut", Key: []byte{'a', 0xff, 1}, Val: []byte{1}}, {K: "DbPut", Key: []byte{'b'}, Val: []byte{2}}, {K: "DbPut", Key: []byte{'b', 0}, Val: []byte{3}},
+			{K: "DbIter", Prefix: []byte{'a', 0xff}, Start: []byte{}}, {K: "DbIter", Prefix: []byte{0xff}, Start: []byte{}}, {K: "DbPut", Key: []byte{0xff, 0xff}, Val: []byte{4}}, {K: "DbIter", Prefix: []byte{0xff, 0xff}, Start: []byte{}}}
+		return [][]Op{h1, h2, h3}
+	}
+	if f.Replay == "" {
+		histories = append(histories, corpus()...)
+	}
 	if f.Replay != "" {
 		var c caseJS
 		hlib.ReadReplayCase(f.Replay, &c)
